@@ -140,7 +140,7 @@ CHECKS.update({
     "C07": {
         "engine": "SHAPE", "category": "exploration",
         "technique": "bounded-exhaustive enumeration of isobar topologies x relabelings x adapters x cse on an event lattice against an independent boost-and-rotate reference and the library's own Dalitz closed form",
-        "text": "all 9 isobar shapes with 2-5 final states, every distinct relabeling of final-state ids (5-body: all 600 in thorough), both numberings of intermediate edges, adapters with subsets / permuted sets of topologies; every invariant mass and helicity angle is recomputed from four-momenta by a numpy reference following the documented naming convention; within one adapter a name must have one value",
+        "text": "all 9 isobar shapes with 2-5 final states, every distinct relabeling of final-state ids (5-body: 24 per shape in thorough), both numberings of intermediate edges, adapters with subsets / permuted sets of topologies; every invariant mass and helicity angle is recomputed from four-momenta by a numpy reference following the documented naming convention; within one adapter a name must have one value",
         "note": "events: 7-point lattice per mass configuration (generic, massless, near threshold, boosted frame); azimuth compared modulo 2 pi with 1/sin(theta) scaling",
         "design": "3/C07",
     },
